@@ -158,7 +158,7 @@ def op_fx_to_float(H, sw, iw, fw, raw):
     """toFloatingPoint of a raw encoding (w <= 53 so that the quotient is exact)"""
     w = sw + iw + fw
     val = Fraction(_sgn(w, raw) if sw == 1 else raw, 1 << fw)
-    return xfloat(H.FixedPoint.fromRawValue(sw, iw, fw, raw).toFloatingPoint()), xfr(val < 0, val)
+    return guarded(lambda: xfloat(H.FixedPoint.fromRawValue(sw, iw, fw, raw).toFloatingPoint())), xfr(val < 0, val)
 
 
 # ------------------------------------------------------------------ ops: pack / unpack
@@ -261,9 +261,18 @@ def op_fpnum_compare(H, da, db):
     return guarded(lambda: mk_fpnum(H, da).compare(mk_fpnum(H, db))), exp
 
 def op_reduce_exp(H, xh, prec):
+    """reduceExponentPrecision(prec) keeps the value, lifts the exponent to the subnormal scale of a prec-bit exponent field,
+    and flags infinity exactly when the biased exponent reaches the all-ones field"""
+    x = float.fromhex(xh)
+    mask = (1 << prec) - 1; e_bias = mask >> 1
+    n0 = H.FPNum(x)
+    e0 = n0.e
+    val = [1 if n0.s < 0 else 0] + list((Fraction(n0.m, n0.p) * Fraction(2) ** n0.e).as_integer_ratio())
     def run():
-        n = H.FPNum(float.fromhex(xh)); n.reduceExponentPrecision(prec); return 'ok'
-    return guarded(run), 'ok'
+        n = H.FPNum(x); n.reduceExponentPrecision(prec)
+        fr = Fraction(n.m, n.p) * Fraction(2) ** n.e
+        return [[1 if n.s < 0 else 0, fr.numerator, fr.denominator], bool(n.infinity), n.e >= -(e_bias - 1)]
+    return guarded(run), [val, (e0 >= -(e_bias - 1)) and (e0 + e_bias >= mask), True]
 
 
 # ------------------------------------------------------------------ ops: FloatingPointHelper
